@@ -115,6 +115,95 @@ Proof.
   - rewrite exp_error_ok by assumption. reflexivity.
 Qed.
 
+Definition abs_qres (m : (bool * Z) * option qual * var) : (bool * Z) * option qual * sexp :=
+  (fst (fst m), snd (fst m), abse (snd m)).
+
+Lemma abse_steal_val : forall T s, exp_has_value s = true -> abse (steal T s) = inl (moved_val T (val s)).
+Proof. intros T s H. unfold abse, steal, exp_has_value in *. cbn [idx val]. rewrite H. reflexivity. Qed.
+Lemma abse_steal_err : forall E s, exp_has_value s = false -> abse (steal E s) = inr (moved_val E (val s)).
+Proof. intros E s H. unfold abse, steal, exp_has_value in *. cbn [idx val]. rewrite H. reflexivity. Qed.
+Lemma wfe_steal : forall t s, wfe s -> wfe (steal t s).
+Proof. intros t s H. exact H. Qed.
+
+Theorem exp_and_then_q_ok : forall T E q s f byval, wfe s ->
+  exists m, exp_and_then_q T E q s f byval = Ok m
+    /\ abs_qres m = se_and_then_q T E q (abse s) f byval /\ wfe (snd m).
+Proof.
+  intros T E q s f byval H. unfold exp_and_then_q, se_and_then_q, abs_qres.
+  destruct (exp_has_value s) eqn:Hv.
+  - rewrite (exp_deref_ok s Hv). cbn [rbind].
+    destruct q; (eexists; split; [reflexivity|]); cbn [fst snd is_rv andb];
+      try (unfold abse; rewrite Hv; split; [reflexivity|exact H]).
+    destruct byval; cbn [fst snd].
+    + rewrite abse_steal_val by exact Hv. unfold abse. rewrite Hv. split; [reflexivity|exact H].
+    + unfold abse. rewrite Hv. split; [reflexivity|exact H].
+  - rewrite (exp_error_ok s H Hv). cbn [rbind].
+    destruct q; (eexists; split; [reflexivity|]); cbn [fst snd is_rv andb];
+      try (unfold abse; rewrite Hv; split; [reflexivity|exact H]).
+    rewrite abse_steal_err by exact Hv. unfold abse. rewrite Hv. split; [reflexivity|exact H].
+Qed.
+
+Theorem exp_or_else_q_ok : forall T E q s g byval, wfe s ->
+  exists m, exp_or_else_q T E q s g byval = Ok m
+    /\ abs_qres m = se_or_else_q T E q (abse s) g byval /\ wfe (snd m).
+Proof.
+  intros T E q s g byval H. unfold exp_or_else_q, se_or_else_q, abs_qres.
+  destruct (exp_has_value s) eqn:Hv.
+  - rewrite (exp_deref_ok s Hv). cbn [rbind].
+    destruct q; (eexists; split; [reflexivity|]); cbn [fst snd is_rv andb];
+      try (unfold abse; rewrite Hv; split; [reflexivity|exact H]).
+    rewrite abse_steal_val by exact Hv. unfold abse. rewrite Hv. split; [reflexivity|exact H].
+  - rewrite (exp_error_ok s H Hv). cbn [rbind].
+    destruct q; (eexists; split; [reflexivity|]); cbn [fst snd is_rv andb];
+      try (unfold abse; rewrite Hv; split; [reflexivity|exact H]).
+    destruct byval; cbn [fst snd].
+    + rewrite abse_steal_err by exact Hv. unfold abse. rewrite Hv. split; [reflexivity|exact H].
+    + unfold abse. rewrite Hv. split; [reflexivity|exact H].
+Qed.
+
+Definition abs_eq {A} (m : A * var) := (fst m, abse (snd m)).
+
+Theorem exp_value_or_q_ok : forall T q s d, wfe s ->
+  exists m, exp_value_or_q T q s d = Ok m /\ abs_eq m = se_value_or_q T q (abse s) d /\ wfe (snd m).
+Proof.
+  intros T q s d H. unfold exp_value_or_q, se_value_or_q, abs_eq.
+  assert (Hc : forall q', is_rv q' = false ->
+     exists m, rbind (exp_value_or s d) (fun v => Ok (v, s)) = Ok m
+       /\ (fst m, abse (snd m)) = match abse s with inl v => (v, if is_rv q' then inl (moved_val T v) else abse s) | inr _ => (d, abse s) end
+       /\ wfe (snd m)).
+  { intros q' Hq. rewrite (exp_value_or_ok s d). cbn [rbind]. eexists; split; [reflexivity|]. cbn [fst snd].
+    rewrite Hq. unfold se_value_or. destruct (abse s); (split; [reflexivity|exact H]). }
+  destruct q; try (apply Hc; reflexivity).
+  destruct (exp_has_value s) eqn:E.
+  - rewrite (exp_deref_ok s E). cbn [rbind]. eexists; split; [reflexivity|]. cbn [fst snd is_rv].
+    rewrite abse_steal_val by exact E. unfold abse. rewrite E. split; [reflexivity|exact H].
+  - eexists; split; [reflexivity|]. cbn [fst snd]. unfold abse. rewrite E. split; [reflexivity|exact H].
+Qed.
+
+Theorem exp_take_q_ok : forall T q s r, wfe s -> se_take_q T q (abse s) = Some r ->
+  exists m, exp_take_q T q s = Ok m /\ abs_eq m = r /\ wfe (snd m).
+Proof.
+  intros T q s r H Hs. unfold exp_take_q, se_take_q, abs_eq in *.
+  destruct (exp_has_value s) eqn:E.
+  - unfold abse in Hs. rewrite E in Hs. inversion Hs; subst r. rewrite (exp_deref_ok s E). cbn [rbind].
+    eexists; split; [reflexivity|]. cbn [fst snd]. destruct (is_rv q).
+    + rewrite abse_steal_val by exact E. split; [reflexivity|exact H].
+    + unfold abse. rewrite E. split; [reflexivity|exact H].
+  - unfold abse in Hs. rewrite E in Hs. discriminate Hs.
+Qed.
+
+Theorem exp_take_error_q_ok : forall E q s r, wfe s -> se_take_error_q E q (abse s) = Some r ->
+  exists m, exp_take_error_q E q s = Ok m /\ abs_eq m = r /\ wfe (snd m).
+Proof.
+  intros E q s r H Hs. unfold exp_take_error_q, se_take_error_q, abs_eq in *.
+  destruct (exp_has_value s) eqn:Ev.
+  - unfold abse in Hs. rewrite Ev in Hs. discriminate Hs.
+  - unfold abse in Hs. rewrite Ev in Hs. inversion Hs; subst r. rewrite (exp_error_ok s H Ev). cbn [rbind].
+    eexists; split; [reflexivity|]. cbn [fst snd]. destruct (is_rv q).
+    + rewrite abse_steal_err by exact Ev. split; [reflexivity|exact H].
+    + unfold abse. rewrite Ev. split; [reflexivity|exact H].
+Qed.
+
 Theorem exp_observe_ok : forall s, wfe s ->
   match abse s with
   | inl v => exp_has_value s = true /\ exp_deref s = Ok v
